@@ -36,7 +36,7 @@ def V(impl, clause, trigger, detail, case):
 
 payload_st = st.one_of(
     st.text(alphabet=st.sampled_from(list('ab"\\ {}[]:,0é') + ['\U0001f600']), max_size=6),
-    st.binary(max_size=6),
+    st.binary(max_size=6), st.binary(min_size=1, max_size=6).map(bytearray),
     st.sampled_from([{'k': 1}, [1, 'a'], {'n': {'m': None}}]))
 url_st = st.builds(
     lambda scheme, host, path, q: '%s://%s%s%s' % (scheme, host, path, ('?' + q) if q else ''),
